@@ -80,6 +80,7 @@ def histories(ctx, u, n, test, sub):
 def run(ctx):
     ctx.tlaps("UpdateLoop_Proof", ["UpdateLoop"])
     ctx.tlaps("ControlPlane_Proof", ["ControlPlane"])
+    ctx.tlaps("TableSwap_Proof", ["TableSwap"])
     ctx.assumptions += [
         "update sequences: every sequence of 4 (quick) / 5 (thorough) messages over service texts {empty, v1, v2, invalid} and manual texts {empty, m1, invalid} (invalid texts drawn by seed from a list of rejected commands); custom backend: every sequence of 3/4 poll answers over {j1, j2, [], truncated JSON, invalid command, HTTP 500}",
     ]
